@@ -327,7 +327,7 @@ pub fn check_db_text(t: &DbText, st: &mut Stats) -> Result<(), Fail> {
     }
 }
 
-pub const FAULTS: [&str; 9] = [
+pub const FAULTS: [&str; 10] = [
     "",
     "signature line before any label",
     "key=value line outside any section",
@@ -337,6 +337,7 @@ pub const FAULTS: [&str; 9] = [
     "trailing junk after a TCP signature",
     "trailing junk on the classes line",
     "TTL out of range (300)",
+    "section header outside the header grammar [name] / [name:direction]",
 ];
 
 /// a valid text with exactly one injected fault: must be rejected
@@ -357,7 +358,7 @@ pub fn faulted(t: &DbText) -> Option<String> {
         l.insert(at.min(l.len()), s.to_string());
         l.join("\n")
     };
-    match t.fault % 9 {
+    match t.fault % 10 {
         1 => pos_after(&|l| l.trim() == "[tcp:request]" || l.trim() == "[tcp:response]").filter(|p| {
             // only when no label precedes in an earlier instance of the same section kind
             let sect = lines[*p - 1].trim();
@@ -374,6 +375,20 @@ pub fn faulted(t: &DbText) -> Option<String> {
         6 => pos_after(&|l| l.trim() == "[tcp:request]" || l.trim() == "[tcp:response]").map(|p| insert(p, &format!("label = s:unix:X:\nsig = {tsig}:extra"))),
         7 => Some(format!("classes = win,unix other\n{base}")),
         8 => pos_after(&|l| l.trim() == "[tcp:request]" || l.trim() == "[tcp:response]").map(|p| insert(p, "label = s:unix:X:\nsig = 4:300:0:*:mss*10,6:mss:df:0")),
+        // a header whose name only starts like a known section: `[tcp:request-legacy]`, `[tcp:request:old]`, `[mtu2]`, `[http:response.bak]`
+        9 => pos_after(&|l| { let t = l.trim(); t.starts_with('[') && t.ends_with(']') }).map(|p| {
+            let mut l: Vec<String> = lines.iter().map(|x| x.to_string()).collect();
+            let h = l[p - 1].trim().to_string();
+            let inner = &h[1..h.len() - 1];
+            // the suffix must break the header grammar `[name]` / `[name:direction]` (letters only): a well-formed header with an
+            // unknown name is a section the loader is allowed to skip, not a fault
+            let mut suffix = ["-legacy", ":old", "2", ".bak", "_v2"][(t.fault_pos % 5) as usize];
+            if suffix == ":old" && !inner.contains(':') {
+                suffix = "-legacy";
+            }
+            l[p - 1] = format!("[{inner}{suffix}]");
+            l.join("\n")
+        }),
         _ => None,
     }
 }
@@ -457,9 +472,9 @@ pub fn run(ctx: &Ctx) {
     let n = ctx.tier.pick(40_000, 600_000);
     ctx.run_prop(
         "faulted-database-rejected",
-        "a generated valid text with exactly one injected fault (signature before any label, line outside a section, unparsable signature, bad mtu number, ?300, trailing junk after a signature / on the classes line, TTL 300) must be rejected with an error, never partially loaded; non-trivial: every case where the fault could be placed",
+        "a generated valid text with exactly one injected fault (signature before any label, line outside a section, unparsable signature, bad mtu number, ?300, section header that only starts like a known one, trailing junk after a signature / on the classes line, TTL 300) must be rejected with an error, never partially loaded; non-trivial: every case where the fault could be placed",
         n,
-        || (db_text(), 1u8..9, any::<u16>()).prop_map(|(mut t, f, p)| { t.fault = f; t.fault_pos = p; t }),
+        || (db_text(), 1u8..10, any::<u16>()).prop_map(|(mut t, f, p)| { t.fault = f; t.fault_pos = p; t }),
         |t: &DbText, st: &mut Stats| {
             let text = match faulted(t) {
                 Some(x) => x,
@@ -469,11 +484,11 @@ pub fn run(ctx: &Ctx) {
                 }
             };
             st.nontrivial(t);
-            st.class(FAULTS[(t.fault % 9) as usize]);
-            st.sample(|| json!({"fault": FAULTS[(t.fault % 9) as usize], "text": truncate(&text, 400)}));
+            st.class(FAULTS[(t.fault % 10) as usize]);
+            st.sample(|| json!({"fault": FAULTS[(t.fault % 10) as usize], "text": truncate(&text, 400)}));
             match Database::from_str(&text) {
                 Err(_) => Ok(()),
-                Ok(_) => Err(fail!(format!("faulted-text-accepted:{}", FAULTS[(t.fault % 9) as usize]), "--- text ---\n{}", truncate(&text, 1200))),
+                Ok(_) => Err(fail!(format!("faulted-text-accepted:{}", FAULTS[(t.fault % 10) as usize]), "--- text ---\n{}", truncate(&text, 1200))),
             }
         },
     );
